@@ -96,6 +96,18 @@ def classify_def(name: str) -> str:
     return "def:" + name
 
 
+def _yields(st):
+    stack = [st]
+    while stack:
+        n = stack.pop()
+        if isinstance(n, (ast.Yield, ast.YieldFrom)):
+            return True
+        if isinstance(n, (ast.FunctionDef, ast.Lambda)) and n is not st:
+            continue
+        stack.extend(ast.iter_child_nodes(n))
+    return False
+
+
 class HeightAnalysis:
     def __init__(self, mark="HOLE_", ctx_names=("ctx",)):
         self.mark = mark
@@ -326,7 +338,17 @@ class HeightAnalysis:
         if isinstance(st, (ast.Expr, ast.Assign, ast.AugAssign, ast.AnnAssign,
                            ast.Delete, ast.Pass, ast.Assert, ast.Import,
                            ast.ImportFrom, ast.Global, ast.Nonlocal)):
-            return self.stmt_effects(st, h)
+            h = self.stmt_effects(st, h)
+            if h != ZERO and _yields(st):
+                # a generator is suspended here: its consumer (and whatever
+                # runs until the next item is requested, possibly never)
+                # sees the entries it pushed
+                self.off("yield", h, ZERO,
+                         "the generator yields while bookkeeping entries it "
+                         "pushed are still registered; they stay until the "
+                         "next item is requested (for ever, if the consumer "
+                         "stops early)", st.lineno)
+            return h
         raise AnalysisError(
             f"statement kind {type(st).__name__} not modelled by the height "
             f"analysis (line {st.lineno})")
